@@ -42,6 +42,10 @@ DESC["C02"] = dict(technique=CASES + " (spec/Render.tla, Gen_Render.tla, Check_R
    text="The rendering grammar is one recursive TLA+ operator over token sequences (multi-byte runes atomic). TLC enumerates ~27k (quick) / ~500k (thorough) trees in exhaustive families - every per-node option combination on a root and on a nested stack, all child sequences up to width 2-3 over 22 alternatives, depth 3, alias forms - checks the grammar's laws on each, and the real String() must equal the expected token sequence; 4k-40k random trees (depth 3-4, arbitrary token mixes, all options, aliases) rendered by the real code must be accepted by Check_Render.tla.",
    note="Exhaustive only within the stated families; whitespace other than SP/TAB, nil / unprintable elements and cyclic structures are outside the stated domain; trusts the tree concretiser and the rune<->token table of the harness, TLC and CommunityModules.")
 
+DESC["C07"] = dict(technique=CASES + " (spec/Traverse.tla, Gen_Traverse.tla, Check_Traverse.tla)", design_ref="DESIGN.md section 4 C07",
+   text="TraverseSpec (recursive) and IndexDescent (the statement's stepwise wording) are two TLA+ definitions that TLC proves equal on every generated (tree, path) pair; all trees of depth <= 3 / width <= 2-3 with nil slots, per-node index options, aliases and Conditions x all paths of length 0..3-5 over -1..width+1 (10^5-10^7 pairs) are replayed on the real Traverse, whose returned value is mapped to a structural address by object identity; random deeper trees and paths are validated by Check_Traverse.tla.",
+   note="Exhaustive only within the stated shapes; result identity is established through Addr() of nested Stacks / Conditions and unique leaf texts assigned by the harness.")
+
 def main():
     commits = subprocess.run(["git", "-C", "/repo", "log", "--format=%h %s", "--grep=^verif:"],
                              stdout=subprocess.PIPE, text=True).stdout.strip().splitlines()
